@@ -103,6 +103,21 @@ CLAIMS["C06"] = ("other", "Lean 4 theorems for the logic (disjoint split = C04 t
                  "trace acceptance. Claimed as 'other' (partial by nature, DESIGN.md section 6).",
                  "Lean kernel + standard axioms for the model theorems; happens-before/atomicity/compiler reordering trusted to TSan on explored schedules")
 
+CLAIMS["C07"] = ("proof", "Lean 4 invariant proof over a model of version stamps / job filters + correspondence on generated histories",
+                 "no_missed_write and no_missed_write_history (a pending write / dirty mark / arrival / relocation / other job's write of a checked component "
+                 "of an entity in a matching archetype is processed by the next run of the job, wherever update() and other jobs' runs fall in between), "
+                 "pending_after_{write,markDirty,create,move,relocation,other_job}; the model's stamps and per-run processed sets are diffed with the "
+                 "real library on exhaustive short op sequences and random histories (version-chunk sizes 1..9, several archetypes and jobs).",
+                 "Lean kernel + standard axioms; hand model validated by differential execution on explored histories; 32-bit version wrap excluded; "
+                 "user archetype/chunk filters constant; World::init() outside the operation set")
+CLAIMS["C11"] = ("proof", "Lean 4 theorems (quiescence, chunk precision, chunk-size resolution) over the version model + correspondence",
+                 "quiescent, no_self_retrigger, const_access_never_stamps, chunk_precise, processed_whole_chunks, blocks_cover_chunks, "
+                 "chunk_size_resolution / rejection / bounds / positive; same correspondence as C07 plus chunk-size function configurations "
+                 "(overlapping, min-only, max-only, contradictory). One open known finding (check mask naming a component the archetype lacks) is "
+                 "proved as a witness theorem and printed as KNOWN-FINDING.",
+                 "Lean kernel + standard axioms; quiescent is stated for check mask within required mask (see the open finding); hand model validated by "
+                 "differential execution on explored histories")
+
 DESIGN_REF = {i: "DESIGN.md section 4, ### %s" % i for i in ["C%02d" % k for k in range(1, 19)]}
 
 
